@@ -256,6 +256,21 @@ def safe_derivative(e, var, timeout=30):
     return X.guarded(lambda: ev.derivative(e, var), timeout)
 
 
+def raising_rule(exc):
+    """class (and dtype) of the innermost node whose `_derivative` rule was running when the exception was raised"""
+    tb, found = getattr(exc, '__traceback__', None), None
+    while tb is not None:
+        f = tb.tb_frame
+        if f.f_code.co_name in ('_derivative', 'counted') and isinstance(f.f_locals.get('self'), ev.Array):
+            node = f.f_locals['self']
+            try:
+                found = '%s:%s' % (type(node).__name__, node.dtype.__name__)
+            except Exception:
+                found = type(node).__name__
+        tb = tb.tb_next
+    return found
+
+
 def safe_simplified(e, timeout=20):
     return X.guarded(lambda: e.simplified, timeout)
 
@@ -272,6 +287,7 @@ def find_argument(e, name):
 
 
 MAX_ENTRIES = 300
+RAISED_KNOWN = set()   # signatures of known findings hit by derivative_case
 
 
 def static_size(e):
@@ -295,7 +311,8 @@ def derivative_case(c, stream, label, e, wrt, args, second=True, outcome=None, e
             return []
         # any other exception / hang on a well-formed differentiable expression: the derivative does not exist as a tree
         c.case(('raises', stream, label))
-        sig = 'derivative-raises:%s:%s' % (type(d).__name__ if d is not None else 'hang', shrink.skeleton(e) or type(e).__name__)
+        sig = 'derivative-raises:%s:%s' % (type(d).__name__ if d is not None else 'hang', (raising_rule(d) if d is not None else None) or shrink.skeleton(e) or type(e).__name__)
+        if c.match_known(sig) is not None: RAISED_KNOWN.add(sig)
         c.failing_input(sig, 'evaluable.derivative raises %r on a well-formed expression' % (d,), dict(stream=stream, label=label, expr=X.describe(e, args), wrt=wrt, pickled=pack(e, args)))
         return []
     xsize = int(numpy.asarray(args[wrt]).size)
@@ -408,6 +425,7 @@ class Judge:
         self.nsym = self.npoint = self.nnum = 0
         self.spec_classes = collections.Counter()
         self.session = LeanSession()
+        self.known_hit = set()
 
     def run(self, cases, maxnodes=900):
         c = self.c
@@ -447,6 +465,11 @@ class Judge:
             self.judge(case, a)
 
     # ---- helpers
+    def fail(self, sig, what, replay):
+        if self.c.match_known(sig) is not None:
+            self.known_hit.add(sig)
+        return self.c.failing_input(sig, what, replay)
+
     def real(self, e, args):
         return X.real_eval(e, args)
 
@@ -495,7 +518,7 @@ class Judge:
         except Exception:
             pass
         sig = 'derivative-wrong:%s%s' % (shrink.skeleton(small) or type(small).__name__, (':%s-only' % tag) if tag != 'raw' and getattr(case, 'raw_ok', False) else '')
-        c.failing_input(sig, 'derivative tree (%s) of %s w.r.t. %s differs from the true Jacobian; decided by %s' % (tag, case.label, wrt, how),
+        self.fail(sig, 'derivative tree (%s) of %s w.r.t. %s differs from the true Jacobian; decided by %s' % (tag, case.label, wrt, how),
                         dict(stream=case.stream, label=case.label, wrt=wrt, which=tag, expr=X.describe(small, sargs), pickled=pack(small, sargs),
                              original=X.describe(case.e_real, case.args), real_derivative=numpy.asarray(dv).tolist() if dv is not None else None,
                              expected=numpy.asarray(expected).tolist() if expected is not None else None))
@@ -586,7 +609,7 @@ class Judge:
             self.count(case, 'dropped-undefined(fd does not confirm differentiability):' + tag); return
         self.count(case, 'derivative-undefined-where-differentiable')
         cls = sorted({type(n).__name__ for n in shrink.all_nodes(case.e_real)} & {'Determinant', 'Inverse', 'Power', 'Log', 'Orthonormal'}) or [shrink.skeleton(case.e_real)]
-        self.c.failing_input('derivative-undefined-where-differentiable:' + '+'.join(cls), 'the derivative tree (%s) of %s is NaN/undefined at a point where the expression is differentiable (finite differences and the formal Jacobian agree)' % (tag, case.label),
+        self.fail('derivative-undefined-where-differentiable:' + '+'.join(cls), 'the derivative tree (%s) of %s is NaN/undefined at a point where the expression is differentiable (finite differences and the formal Jacobian agree)' % (tag, case.label),
                              dict(stream=case.stream, label=case.label, wrt=case.wrt, which=tag, expr=X.describe(case.e_real, case.args), pickled=pack(case.e_real, case.args), expected=Jl.tolist(), real_derivative=repr(dv)))
 
     def spec_eval(self, case, what, tree, res, real_value):
@@ -1149,9 +1172,60 @@ def stream_defined_where_differentiable(c, J):
         fd_ok = Jfd is not None and v != 'unreliable' and rel_close(Jfd, Jl, 1e-6)
         J.outcome['probe:derivative-%s-where-differentiable(fd %s)' % (kr, 'confirms' if fd_ok else 'unreliable')] += 1
         skel = shrink.skeleton(e)
-        c.failing_input('derivative-undefined-where-differentiable:' + sigclass if kr != 'ok' else 'derivative-wrong:' + skel,
+        J.fail('derivative-undefined-where-differentiable:' + sigclass if kr != 'ok' else 'derivative-wrong:' + skel,
                         'the derivative tree of %s evaluates to %s at a point where the expression is a polynomial (true Jacobian %s)' % (label, 'NaN/inf' if kr == 'nonfinite' else kr, Jl.tolist()),
                         dict(stream='probe', label=label, wrt='x', expr=X.describe(e, args), pickled=pack(e, args), real_derivative=repr(dv), expected=Jl.tolist(), finite_differences=None if Jfd is None else Jfd.tolist()))
+    return n
+
+
+def stream_intbool(c, J):
+    """the clause "expressions of integer or boolean type have an identically zero derivative": every node class on an integer / boolean
+    operand that DEPENDS on a real argument (through a comparison), so that the class's own `_derivative` rule runs"""
+    x, y = A('x', 2), A('y', 2)
+    args = dict(x=numpy.array([1., 2.]), y=numpy.array([2., 1.]))
+    b = ev.Greater(x, y)
+    i = ev.BoolToInt(b)
+    ic = lambda *v: ev.Constant(types.arraydata(numpy.array(v)))
+    ms = lambda *a: types.frozenmultiset(a)
+    k = ev.loop_index('k', ev.constant(2))
+    tests = [
+        ('Product(bool)', lambda: ev.Product(b)), ('Product(int)', lambda: ev.Product(i)),
+        ('Minimum(int)', lambda: ev.Minimum(i, ic(0, 1))), ('Maximum(int)', lambda: ev.Maximum(i, ic(0, 1))),
+        ('Power(int)', lambda: ev.Power(i, ic(2, 3))), ('Multiply(int)', lambda: ev.Multiply(ms(i, i))), ('Multiply(bool)', lambda: ev.Multiply(ms(b, b))),
+        ('Add(bool)', lambda: ev.Add(ms(b, b))), ('Add(int)', lambda: ev.Add(ms(i, i))), ('Sum(bool)', lambda: ev.Sum(b)), ('Sum(int)', lambda: ev.Sum(i)),
+        ('Sign(int)', lambda: ev.Sign(i)), ('Choose(int)', lambda: ev.Choose(ic(0, 1), ev.stack([i, i], 1))),
+        ('Inflate(int)', lambda: ev.Inflate(i, ic(1, 0), ev.constant(2))), ('Take(bool)', lambda: ev.Take(b, ic(1, 0))), ('Take(int)', lambda: ev.Take(i, ic(1, 0))),
+        ('Diagonalize(int)', lambda: ev.Diagonalize(i)), ('TakeDiag(int)', lambda: ev.TakeDiag(ev.Diagonalize(i))), ('InsertAxis(bool)', lambda: ev.InsertAxis(b, ev.constant(3))),
+        ('Transpose(int)', lambda: ev.Transpose(ev.Diagonalize(i), (1, 0))), ('Ravel(int)', lambda: ev.Ravel(ev.Diagonalize(i))), ('Unravel(int)', lambda: ev.Unravel(i, ev.constant(2), ev.constant(1))),
+        ('LoopSum(int)', lambda: ev.loop_sum(ev.Take(i, k), k)), ('LoopConcatenate(int)', lambda: ev.loop_concatenate(ev.InsertAxis(ev.Take(i, k), ev.constant(1)), k)),
+        ('FloorDivide(int)', lambda: ev.FloorDivide(i, ic(1, 2))), ('Mod(int)', lambda: ev.Mod(i, ic(1, 2))), ('Absolute(int)', lambda: ev.Absolute(i)), ('Negative(int)', lambda: ev.Negative(i)),
+        ('Guard(int)', lambda: ev.Guard(i)), ('Determinant-free: Equal', lambda: ev.Equal(i, ic(0, 1))), ('LogicalNot', lambda: ev.LogicalNot(b)),
+    ]
+    n = 0
+    for label, mk in tests:
+        try:
+            e = mk()
+        except Exception as ex:
+            J.outcome['intbool:cannot-build:%s' % label] += 1; continue
+        n += 1
+        c.case(('intbool', label))
+        kd, d = safe_derivative(e, x)
+        if kd == 'ok':
+            kv, v = X.real_eval(d, args)
+            shape_ok = kv == 'ok' and v.shape == tuple(int(m) for m in e.shape) + (2,) and d.dtype == e.dtype
+            if shape_ok and not numpy.any(v):
+                J.outcome['intbool:zero'] += 1
+            else:
+                J.outcome['intbool:nonzero-or-wrong-shape'] += 1
+                J.fail('derivative-of-%s-expression-not-zero:%s' % (e.dtype.__name__, type(e).__name__), 'the derivative of the %s expression %s is not identically zero of shape e.shape+x.shape' % (e.dtype.__name__, label),
+                       dict(stream='intbool', label=label, wrt='x', expr=X.describe(e, args), pickled=pack(e, args), real_derivative=repr(v)))
+        elif kd == 'exception' and isinstance(d, NotImplementedError):
+            J.outcome['intbool:not-implemented'] += 1
+        else:
+            J.outcome['intbool:raises:%s' % (type(d).__name__ if d is not None else 'hang')] += 1
+            J.fail('derivative-raises:%s:%s' % (type(d).__name__ if d is not None else 'hang', (raising_rule(d) if d is not None else None) or type(e).__name__),
+                   'evaluable.derivative raises %r on the %s expression %s (must be identically zero)' % (d, e.dtype.__name__, label),
+                   dict(stream='intbool', label=label, wrt='x', expr=X.describe(e, args), pickled=pack(e, args)))
     return n
 
 
@@ -1245,9 +1319,15 @@ def run(c):
             J.run(cases[i:i+B])
             c.log('judged %d/%d' % (min(i+B, len(cases)), len(cases)))
         nprobe = stream_defined_where_differentiable(c, J)
+        nint = stream_intbool(c, J)
     finally:
         J.session.stop()
     c.extra['lean_time_limit_restarts'] = J.session.restarts
+    # open known findings of this property: the directed probes above are their corpus cases
+    for entry in c.findings:
+        if entry.get('status') == 'open':
+            c.report_known_still_failing(entry, entry.get('signature') in J.known_hit or any(entry.get('signature') == k for k in RAISED_KNOWN))
+    c.obligation('explore:int-bool-zero-derivative', nint > 0, 'exploration', '%d integer/boolean node classes depending on a real argument through a comparison' % nint)
     for k, v in sorted(J.outcome.items()): c.count(k, v)
     c.extra['by_stream'] = {k: dict(v) for k, v in J.by_stream.items()}
     c.extra['proved_symbolically_for_all_real_values'] = J.nsym
